@@ -1037,6 +1037,16 @@ helperHandleRead(const Comm::ConnectionPointer &conn, char *, size_t len, Comm::
         return;
     }
 
+    if (memchr(srv->rbuf + srv->roffset, '\0', len)) {
+        /* the parsing code below treats the buffer as a c-string */
+        debugs(84, DBG_IMPORTANT, "ERROR: Killing helper process after receiving a NUL octet from " <<
+               hlp->id_name << " #" << srv->index);
+        srv->roffset = 0;
+        srv->rbuf[0] = '\0';
+        srv->closePipesSafely();
+        return;
+    }
+
     srv->roffset += len;
     srv->rbuf[srv->roffset] = '\0';
     debugs(84, DBG_DATA, Raw("accumulated", srv->rbuf, srv->roffset));
@@ -1083,6 +1093,12 @@ helperHandleRead(const Comm::ConnectionPointer &conn, char *, size_t len, Comm::
                     msg = e;
                     while (*msg && xisspace(*msg))
                         ++msg;
+                } else if (eom) {
+                    // A complete message without a properly terminated channel-ID
+                    // prefix cannot belong to any request; drop it like a reply
+                    // on an unknown channel instead of waiting for more data.
+                    needsMore = false;
+                    i = -1;
                 } // else not enough data to compute request number
             }
             // Do not look the request up while the channel-ID may continue in
